@@ -329,7 +329,7 @@ def long_sweep(jp, rec, R, spec):
                     else:
                         lo = mid + 1
                 key = "refused-long:%s" % type(o[1]).__name__
-                if name in LOGICAL_CHAINS and isinstance(o[1], RecursionError) and lo >= 400:
+                if name in LOGICAL_CHAINS and isinstance(o[1], RecursionError) and lo >= 200:
                     key = "logical-chain-recursion"   # listed finding (known_findings.json): one parser frame pair per && / || operator
                 rec.violation(key, {"form": name, "query": "%r + %r.join([%r] * %d) + %r" % (pre, sep, piece, lo, suf), "repetitions": lo,
                                                                     "characters": len(pre + sep.join([piece] * lo) + suf), "observed": mon.describe_outcome(o)[:200]})
